@@ -1,4 +1,177 @@
-(* C20 -- placeholder while the proofs are being developed *)
-From Coq Require Import List NArith.
+(* C20 -- text drawings of circuits are well-formed pictures of the circuit.
+
+   Model/Render.v models TextRenderer.layout() and the printed rows; its flag fx selects the code:
+     fx = true  : the renderer with fixes/C20-bridge-span.diff applied  -> theorems without restriction
+     fx = false : the renderer of the unchanged tree                    -> `_refuted` + the same theorems under
+                  the guard `box_contiguous` (every controlled multi-qubit box has contiguous targets)
+   Input domain wf_input: >= 1 qubit, indices in range and distinct, one label per wire, gate_pad >= 0.
+
+   Vocabulary (Spec/RenderSpec.v): rows are lists of code points; the picture has row 3i, 3i+1, 3i+2 =
+   top, middle, bottom row of the wire `wire_at nq nc i`; `read_labels` extracts the contents of every
+   "┤ ... ├" of a middle row (after the wire-label column) and strips the gate padding; `circuit_labels ops w`
+   is computed from the circuit alone; `op_links` lists (wire, row, column offset, glyph) of every link glyph
+   and `op_boxes` the label box, both relative to the column x at which the operation is drawn. *)
+From Coq Require Import List NArith Arith Bool.
 Import ListNotations.
-From QV Require Import Model.Render.
+From QV Require Import Model.Render Spec.RenderSpec Proofs.RenderInv Proofs.RenderRead Proofs.RenderLinks
+     Proofs.RenderUnfixed Proofs.RenderGuarded.
+
+(* ---------------- the repaired renderer: all circuits, all styles ---------------- *)
+
+(* the drawing succeeds *)
+Theorem layout_succeeds : forall sty nq nc ops,
+  wf_input sty nq nc ops = true -> exists rows, layout true sty nq nc ops = Some rows.
+Proof. exact layout_succeeds_l. Qed.
+Print Assumptions layout_succeeds.
+
+(* three rows per quantum and classical wire *)
+Theorem rows_three_per_wire : forall fx sty nq nc ops rows,
+  layout fx sty nq nc ops = Some rows -> length rows = 3 * (nq + nc).
+Proof. exact rows_three_per_wire_l. Qed.
+Print Assumptions rows_three_per_wire.
+
+(* the i-th printed wire is wire_at i = qubits N-1 .. 0 then classical bits last .. first: its middle row
+   starts with that wire's label column *)
+Theorem wire_order : forall sty nq nc ops rows,
+  wf_input sty nq nc ops = true -> layout true sty nq nc ops = Some rows ->
+  forall i, i < nq + nc ->
+    exists rest, nth (3 * i + 1) rows [] = wire_prefix sty nq nc (wire_at nq nc i) ++ rest.
+Proof. exact wire_order_f. Qed.
+Print Assumptions wire_order.
+
+(* all rows have the same width *)
+Theorem rows_equal_width : forall sty nq nc ops rows,
+  wf_input sty nq nc ops = true -> layout true sty nq nc ops = Some rows ->
+  exists width, forall r, In r rows -> length r = width.
+Proof. exact rows_equal_width_l. Qed.
+Print Assumptions rows_equal_width.
+
+(* reading a wire's middle row from left to right gives, in circuit order, exactly the labels of the
+   operations whose box is attached to that wire *)
+Theorem labels_in_order : forall sty nq nc ops rows,
+  wf_input sty nq nc ops = true -> Forall text_ok ops ->
+  layout true sty nq nc ops = Some rows ->
+  forall i, i < nq + nc ->
+    read_labels sty nq nc (nth (3 * i + 1) rows []) = circuit_labels ops (wire_at nq nc i).
+Proof. exact labels_in_order_f. Qed.
+Print Assumptions labels_in_order.
+
+(* every control, swap and measurement link stands, in the column of its operation, on every wire it
+   connects or crosses; the label box of the operation stands at that column too *)
+Theorem links_reach : forall sty nq nc ops st xs,
+  wf_input sty nq nc ops = true ->
+  layout_full true sty nq nc ops = Some (st, xs) ->
+  length xs = length ops /\
+  forall k o x, nth_error ops k = Some o -> nth_error xs k = Some x ->
+    (forall f, In f (op_links (padw sty) nq nc o) -> holds st x f) /\
+    (forall b, In b (op_boxes (padw sty) nq o) -> box_holds st x b).
+Proof. exact links_reach_l. Qed.
+Print Assumptions links_reach.
+
+(* the printed rows are the rows of the final state, in print order *)
+Theorem printed_rows : forall fx sty nq nc ops st xs,
+  layout_full fx sty nq nc ops = Some (st, xs) ->
+  layout fx sty nq nc ops = Some (rows_of nq nc st) /\
+  forall i j, i < nq + nc -> j < 3 ->
+    nth (3 * i + j) (rows_of nq nc st) [] =
+    nth j [top (wire_of st (wire_at nq nc i)); mid (wire_of st (wire_at nq nc i));
+           bot (wire_of st (wire_at nq nc i))] [].
+Proof. exact printed_rows_l. Qed.
+Print Assumptions printed_rows.
+
+(* ---------------- the unchanged renderer ---------------- *)
+
+(* FREDKIN with control 1 and targets 0, 2 on three qubits: rows of width 22 and 44 *)
+Theorem rows_equal_width_refuted :
+  exists sty nq nc ops rows,
+    wf_input sty nq nc ops = true /\ layout false sty nq nc ops = Some rows /\
+    ~ (exists width, forall r, In r rows -> length r = width).
+Proof. exact rows_equal_width_refuted_l. Qed.
+Print Assumptions rows_equal_width_refuted.
+
+(* on circuits inside the guard the unchanged renderer draws exactly what the repaired one draws *)
+Theorem unchanged_agrees_under_guard : forall sty nq nc ops,
+  forallb box_contiguous ops = true ->
+  layout_full false sty nq nc ops = layout_full true sty nq nc ops.
+Proof. exact layout_full_unfixed_eq. Qed.
+Print Assumptions unchanged_agrees_under_guard.
+
+Theorem layout_succeeds_unchanged_guarded : forall sty nq nc ops,
+  wf_input sty nq nc ops = true -> forallb box_contiguous ops = true ->
+  exists rows, layout false sty nq nc ops = Some rows.
+Proof. exact layout_succeeds_g. Qed.
+Print Assumptions layout_succeeds_unchanged_guarded.
+
+Theorem wire_order_unchanged_guarded : forall sty nq nc ops rows,
+  wf_input sty nq nc ops = true -> forallb box_contiguous ops = true ->
+  layout false sty nq nc ops = Some rows ->
+  forall i, i < nq + nc ->
+    exists rest, nth (3 * i + 1) rows [] = wire_prefix sty nq nc (wire_at nq nc i) ++ rest.
+Proof. exact wire_order_g. Qed.
+Print Assumptions wire_order_unchanged_guarded.
+
+Theorem rows_equal_width_unchanged_guarded : forall sty nq nc ops rows,
+  wf_input sty nq nc ops = true -> forallb box_contiguous ops = true ->
+  layout false sty nq nc ops = Some rows ->
+  exists width, forall r, In r rows -> length r = width.
+Proof. exact rows_equal_width_g. Qed.
+Print Assumptions rows_equal_width_unchanged_guarded.
+
+Theorem labels_in_order_unchanged_guarded : forall sty nq nc ops rows,
+  wf_input sty nq nc ops = true -> forallb box_contiguous ops = true -> Forall text_ok ops ->
+  layout false sty nq nc ops = Some rows ->
+  forall i, i < nq + nc ->
+    read_labels sty nq nc (nth (3 * i + 1) rows []) = circuit_labels ops (wire_at nq nc i).
+Proof. exact labels_in_order_g. Qed.
+Print Assumptions labels_in_order_unchanged_guarded.
+
+Theorem links_reach_unchanged_guarded : forall sty nq nc ops st xs,
+  wf_input sty nq nc ops = true -> forallb box_contiguous ops = true ->
+  layout_full false sty nq nc ops = Some (st, xs) ->
+  length xs = length ops /\
+  forall k o x, nth_error ops k = Some o -> nth_error xs k = Some x ->
+    (forall f, In f (op_links (padw sty) nq nc o) -> holds st x f) /\
+    (forall b, In b (op_boxes (padw sty) nq o) -> box_holds st x b).
+Proof. exact links_reach_g. Qed.
+Print Assumptions links_reach_unchanged_guarded.
+
+(* ---------------- the hypotheses are satisfiable by non-trivial inputs ---------------- *)
+Definition s (l : list N) : str := l.
+Definition ex_style : style := mkStyle 3 2 1 true (Some [s [97]%N; s [98; 98]%N; s [113; 48]%N; s [113; 49]%N; s [113; 50]%N; s [113; 51]%N]).
+(* H q0; CNOT 1->0; FREDKIN 3->(1,2); measure q0 -> c0; SWAP 0,3; TOFFOLI (0,2)->1 labelled "ab"; CRX 0->2 *)
+Definition ex_ops : list op :=
+  [ Gate (s [72]%N) None [0] None;
+    Gate (s [67; 78; 79; 84]%N) None [0] (Some [1]);
+    Gate sFREDKIN None [1; 2] (Some [3]);
+    Meas 0 0;
+    Gate sSWAP None [0; 3] None;
+    Gate (s [84; 79; 70]%N) (Some (s [97; 98]%N)) [1] (Some [0; 2]);
+    Gate (s [67; 82; 88]%N) None [2] (Some [0]) ].
+(* ... followed by a controlled two-target gate whose control lies between its targets *)
+Definition ex_ops2 : list op := ex_ops ++ [Gate sFREDKIN None [0; 2] (Some [1])].
+
+Example ex_wf : wf_input ex_style 4 2 ex_ops2 = true.
+Proof. vm_compute. reflexivity. Qed.
+
+Example ex_text_ok : Forall text_ok ex_ops2.
+Proof. repeat constructor; vm_compute; intuition discriminate. Qed.
+
+Example ex_guard : wf_input ex_style 4 2 ex_ops = true /\ forallb box_contiguous ex_ops = true.
+Proof. split; vm_compute; reflexivity. Qed.
+
+Example ex_guard_excludes : forallb box_contiguous ex_ops2 = false.
+Proof. vm_compute. reflexivity. Qed.
+
+(* the labels read on q0 (printed fourth) of the example: H, CNOT, M and the blank upper... *)
+Example ex_labels :
+  exists rows, layout true ex_style 4 2 ex_ops2 = Some rows /\
+    read_labels ex_style 4 2 (nth (3 * 3 + 1) rows []) =
+    [s [72]%N; s [67; 78; 79; 84]%N; sM; sFREDKIN] /\
+    read_labels ex_style 4 2 (nth (3 * 1 + 1) rows []) =
+    [rep 7 cSP; s [67; 82; 88]%N; rep 7 cSP].
+Proof. eexists. split; [vm_compute; reflexivity|]. split; vm_compute; reflexivity. Qed.
+
+(* links of the example are not an empty list: the TOFFOLI has 2 nodes, a ┴, a ┬ and two bars; the measurement ╥, 3 x ║ on c1, ║ and ╩ on c0 *)
+Example ex_links : length (op_links (padw ex_style) 4 2 (nth 5 ex_ops2 (Meas 0 0))) = 6
+                   /\ length (op_links (padw ex_style) 4 2 (nth 3 ex_ops2 (Meas 0 0))) = 6.
+Proof. split; vm_compute; reflexivity. Qed.
